@@ -122,7 +122,7 @@ Section Start.
   Lemma pids_valid j : In j (pids pl) -> ~ In j (pl_invalid pl).
   Proof.
     unfold pids. intros Hj. apply in_map_iff in Hj. destruct Hj as [q [<- Hq]].
-    destruct (bp_anatomy sc (locals_of sc) (found_in c0 (cand_of sc c0))) as [layers [cyc [_ [_ [_ [EP _]]]]]].
+    destruct (bp_anatomy sc (live_crds sc c0) (locals_of sc) (found_in sc c0 (cand_of sc c0))) as [layers [cyc [_ [_ [_ [EP _]]]]]].
     rewrite <- plan_of_eq in EP. rewrite EP in Hq. apply filter_In in Hq. destruct Hq as [_ Hv].
     unfold validp in Hv. rewrite <- plan_of_eq in Hv. apply negb_true_iff in Hv.
     intros Hin. apply memn_In in Hin. congruence.
@@ -131,7 +131,7 @@ Section Start.
   Lemma pids_c0 j : In j (pids pl) -> exists c, fo c0 j = Some c /\ In (pobj_of_live c) (pl_prune pl).
   Proof.
     unfold pids. intros Hj. apply in_map_iff in Hj. destruct Hj as [q [<- Hq]].
-    destruct (bp_anatomy sc (locals_of sc) (found_in c0 (cand_of sc c0))) as [layers [cyc [_ [_ [_ [EP _]]]]]].
+    destruct (bp_anatomy sc (live_crds sc c0) (locals_of sc) (found_in sc c0 (cand_of sc c0))) as [layers [cyc [_ [_ [_ [EP _]]]]]].
     rewrite <- plan_of_eq in EP. pose proof Hq as Hq'. rewrite EP in Hq. apply filter_In in Hq. destruct Hq as [Hq _].
     unfold pruneA in Hq. apply in_map_iff in Hq. destruct Hq as [c [<- Hc]].
     exists c. split; [|exact Hq']. cbn [p_id pobj_of_live]. apply pl_prune_c0. exact Hq'.
@@ -141,7 +141,7 @@ Section Start.
   Proof.
     intros D. unfold apply_ids. destruct (pl_apply pl) as [|q t] eqn:E; [reflexivity|]. exfalso.
     assert (Hq : In q (pl_apply pl)) by (rewrite E; left; reflexivity).
-    rewrite plan_of_eq in Hq. destruct (bp_apply_is_local sc _ _ q Hq) as [l [_ Hl]].
+    rewrite plan_of_eq in Hq. destruct (bp_apply_is_local sc _ _ _ q Hq) as [l [_ Hl]].
     unfold locals_of in Hl. rewrite D in Hl. destruct Hl.
   Qed.
 
